@@ -1,6 +1,6 @@
 (* C17: case vocabulary, model runner and the property predicate. *)
 From OIDC Require Import Lib.
-From OIDC Require Export C17_RP C17_Construct.
+From OIDC Require Export C17_RP C17_Construct C17_Cookie C17_Tail.
 
 (* S256 as a per-case oracle table filled by the harness with oidc.NewSHACodeChallenge *)
 Definition hfun (tab : list (string * string)) (v : string) : string :=
@@ -9,15 +9,42 @@ Definition hfun (tab : list (string * string)) (v : string) : string :=
 (* A case = how the application built its RP (constructor, options in order, what the
    OP's discovery document announces), the S256 table, the initial jar, the history. *)
 Inductive input :=
-| Inp (s : setup) (htab : list (string * string)) (j0 : jar) (ops : list op).
+| Inp (s : setup) (htab : list (string * string)) (j0 : jar) (ops : list op)
+(* round 11: the RP's CookieHandler is built with options [co]; the browser honours the
+   cookies' attributes (C17_Cookie.v); keeps = the client replays cookies beyond their Max-Age *)
+| InpCk (s : setup) (co : list ch_opt) (keeps : bool) (htab : list (string * string)) (ops : list kop)
+(* round 11: one callback request and what the provider answers to it: the RP was built
+   WithVerifierOpts(vo); wrap = the application's callback is wrapped in rp.UserinfoCallback *)
+| InpTail (s : setup) (vo : list vopt) (wrap : bool) (tr : tokresp) (ui : uiresp) (j0 : jar) (q : params).
 
 Inductive observed :=
 | Obs (evs : list event)
 | ONoRP        (* the constructor returned an error: no RP, nothing happens (never in the model) *)
-| OPanic.
+| OPanic
+| ObsCk (evs : list kevent)
+| ObsTail (t : tail_out).
+
+Definition is_app (ev : event) : bool := match ev with EvCb (HApp _) _ _ => true | _ => false end.
 
 Definition model (i : input) : observed :=
-  match i with Inp s tab j0 ops => Obs (run (hfun tab) (construct s) j0 ops) end.
+  match i with
+  | Inp s tab j0 ops => Obs (run (hfun tab) (construct s) j0 ops)
+  | InpCk s co keeps tab ops =>
+      ObsCk (krun (hfun tab) (construct s) (new_cookie_handler co) keeps [] ops)
+  | InpTail s vo wrap tr ui j0 q =>
+      (* UserinfoCallback reads tokens.IDTokenClaims.GetSubject(): an OAuth2-only RP has no ID
+         token claims (nil pointer) - outside [wf] *)
+      if wrap && oauth_only s && is_app (callback (construct s) j0 q (exchange_ok s vo tr)) then OPanic
+      else ObsTail (tail_model s vo wrap tr ui j0 q)
+  end.
+
+(* inputs the central theorem speaks about: everything except UserinfoCallback on an RP
+   built by NewRelyingPartyOAuth (no ID token, no userinfo endpoint) *)
+Definition wf (i : input) : bool :=
+  match i with
+  | InpTail s _ wrap _ _ _ _ => negb (wrap && oauth_only s)
+  | _ => true
+  end.
 
 (* ---------- the property, on what the implementation answered ---------- *)
 Section Spec.
@@ -176,6 +203,87 @@ Definition intended (s : setup) : option config :=
                         (s_client s) (s_redirect s) (s_scopes s) (endpoint (s_ctor s)) (s_extra s))
   end.
 
+(* ---------- round 11: cookie attributes.  The browser (which cookies a request carries)
+   is ground truth; the jar is kept from the OBSERVED Set-Cookie headers with their observed
+   attributes.  The property does not speak about attributes or ages: a callback is judged
+   by clauses (a)-(c) against every validly minted cookie the request carries, whatever
+   its age ([view 0]: nothing counts as expired). ---------- *)
+Section SpecCk.
+  Variable H : string -> string.
+  Variable cfg : config.
+  Variable keeps : bool.
+
+  Definition kspec_step (j : bjar) (o : kop) (ev : kevent) : bool :=
+    match o, ev with
+    | KLogin s _ _, KEvAuth cs base ps => auth_ok H cfg s (map fst cs) base ps
+    | KCallback q _ r, KEvCb hd reqs _ => cb_ok H cfg false (view 0%Z (sent keeps r j)) [] q hd reqs
+    | KWait _, KEvNone => true
+    | KPut _ _, KEvNone => true
+    | _, _ => false
+    end.
+
+  Fixpoint kspec_run (j : bjar) (ops : list kop) (evs : list kevent) : bool :=
+    match ops, evs with
+    | [], [] => true
+    | o :: ops', ev :: evs' => kspec_step j o ev && kspec_run (kjar_after j o ev) ops' evs'
+    | _, _ => false
+    end.
+End SpecCk.
+
+(* ---------- round 11: the callback's tail.  Ground truth = what the provider answered
+   (tr, ui) and the options the application passed.  From their documentation:
+   WithIssuedAtMaxAge "define[s] the maximum duration between iat and now",
+   WithAuthTimeMaxAge "the maximum duration between auth_time and now" (the last one
+   passed counts; 0 = none); UserinfoCallback: OIDC Core 5.3.2 "the sub Claim in the
+   UserInfo Response MUST be verified to exactly match the sub Claim in the ID Token;
+   if they do not match, the UserInfo Response values MUST NOT be used". ---------- *)
+Fixpoint configured_iat_maxage (vo : list vopt) : option Z :=
+  match vo with
+  | [] => None
+  | o :: r => match configured_iat_maxage r with
+              | Some d => Some d
+              | None => match o with WithIssuedAtMaxAge d => Some d | _ => None end
+              end
+  end.
+Fixpoint configured_auth_maxage (vo : list vopt) : option Z :=
+  match vo with
+  | [] => None
+  | o :: r => match configured_auth_maxage r with
+              | Some d => Some d
+              | None => match o with WithAuthTimeMaxAge d => Some d | _ => None end
+              end
+  end.
+
+Definition within (limit : option Z) (age : option Z) : bool :=
+  match limit with
+  | None => true
+  | Some d => (d =? 0)%Z || match age with Some a => (a <=? d)%Z | None => false end
+  end.
+
+Definition doc_time_ok (vo : list vopt) (t : idtok) : bool :=
+  within (configured_iat_maxage vo) (it_iat_age t) && within (configured_auth_maxage vo) (it_auth_age t).
+
+Definition tail_spec (H : string -> string) (cfg : config) (s : setup) (vo : list vopt) (wrap : bool)
+           (tr : tokresp) (ui : uiresp) (j : jar) (q : params) (t : tail_out) : bool :=
+  match t with
+  | TailOut (EvCb h reqs _) uireqs info =>
+      (* the property's clauses (a)-(c) *)
+      cb_ok H cfg false j [] q h reqs
+      && match h with
+         | HApp _ =>
+             (* an OIDC RP hands over only an ID token the provider delivered and that is within the configured ages *)
+             (oauth_only s
+              || (tr_ok tr && match tr_id tr with Some it => doc_time_ok vo it | None => false end))
+             (* UserinfoCallback: userinfo of the ID token's subject, or no application callback *)
+             && (negb wrap
+                 || (ui_ok ui && String.eqb (ui_sub ui) (id_sub tr) && opt_is info (ui_sub ui)))
+         | _ => true
+         end
+      (* nothing is asked of the provider on behalf of a callback that exchanged no code *)
+      && match reqs, uireqs with [], _ :: _ => false | _, _ => true end
+  | _ => false
+  end.
+
 Definition spec (i : input) (o : observed) : bool :=
   match i, o with
   | Inp s tab j0 ops, Obs evs =>
@@ -183,8 +291,18 @@ Definition spec (i : input) (o : observed) : bool :=
       | Some cfg => spec_run (hfun tab) cfg (honest cfg j0 ops) j0 [] ops evs
       | None => true
       end
+  | InpCk s co keeps tab ops, ObsCk evs =>
+      match intended s with
+      | Some cfg => kspec_run (hfun tab) cfg keeps [] ops evs
+      | None => true
+      end
+  | InpTail s vo wrap tr ui j0 q, ObsTail t =>
+      match intended s with
+      | Some cfg => tail_spec (hfun []) cfg s vo wrap tr ui j0 q t
+      | None => true
+      end
   | _, ONoRP => true
-  | _, OPanic => false
+  | _, _ => false
   end.
 
 (* ---------- comparison of observables ---------- *)
@@ -223,11 +341,36 @@ Definition event_eqb (a b : event) : bool :=
   | EvOther, EvOther => true
   | _, _ => false
   end.
+Definition samesite_eqb (a b : samesite) : bool :=
+  match a, b with
+  | SSUnset, SSUnset | SSDefault, SSDefault | SSLax, SSLax | SSStrict, SSStrict | SSNone, SSNone => true
+  | _, _ => false
+  end.
+Definition attrs_eqb (a b : attrs) : bool :=
+  String.eqb (a_domain a) (a_domain b) && String.eqb (a_path a) (a_path b)
+  && (a_maxage a =? a_maxage b)%Z && Bool.eqb (a_httponly a) (a_httponly b)
+  && Bool.eqb (a_secure a) (a_secure b) && samesite_eqb (a_samesite a) (a_samesite b).
+Definition setck_eqb (a b : setck) : bool := ccmd_eqb (fst a) (fst b) && attrs_eqb (snd a) (snd b).
+Definition kevent_eqb (a b : kevent) : bool :=
+  match a, b with
+  | KEvAuth c u p, KEvAuth c' u' p' => list_eqb setck_eqb c c' && String.eqb u u' && params_eqb p p'
+  | KEvCb h r c, KEvCb h' r' c' => handler_eqb h h' && list_eqb tokreq_eqb r r' && list_eqb setck_eqb c c'
+  | KEvNone, KEvNone => true
+  | KEvOther, KEvOther => true
+  | _, _ => false
+  end.
+Definition tail_eqb (a b : tail_out) : bool :=
+  match a, b with
+  | TailOut e u i, TailOut e' u' i' =>
+      event_eqb e e' && list_eqb String.eqb u u' && option_eqb String.eqb i i'
+  end.
 Definition obs_eqb (a b : observed) : bool :=
   match a, b with
   | Obs x, Obs y => list_eqb event_eqb x y
   | ONoRP, ONoRP => true
   | OPanic, OPanic => true
+  | ObsCk x, ObsCk y => list_eqb kevent_eqb x y
+  | ObsTail x, ObsTail y => tail_eqb x y
   | _, _ => false
   end.
 
@@ -266,6 +409,25 @@ Definition path (i : input) (o : observed) : nat :=
       let mx := fold_left Nat.max classes 0 in
       let passed := List.length (filter (fun c => andb (5 <=? c) (c <=? 9)) classes) in
       mx + 11 * Nat.min 5 passed
+  (* cookie attributes: 100 + 16 * (callbacks past the state check, at most 3) + 4 * (callbacks
+     refused at the state cookie, at most 3) + (Set-Cookies ignored or deleting, at most 3) *)
+  | InpCk s co keeps tab ops =>
+      let evs := krun (hfun tab) (construct s) (new_cookie_handler co) keeps [] ops in
+      let past := List.length (filter (fun e => match e with KEvCb (HUnauth "") [] [] => false | KEvCb _ _ _ => true | _ => false end) evs) in
+      let refused := List.length (filter (fun e => match e with KEvCb (HUnauth "") [] [] => true | _ => false end) evs) in
+      let dels := List.length (filter (fun sc => (a_maxage (snd sc) <? 0)%Z) (flat_map kev_cookies evs)) in
+      100 + 16 * Nat.min 3 past + 4 * Nat.min 3 refused + Nat.min 3 dels
+  (* the tail: 200 + class of the callback + 10 * (1 application callback without userinfo,
+     2 userinfo accepted, 3 userinfo refused, 0 otherwise) *)
+  | InpTail s vo wrap tr ui j0 q =>
+      let ev := callback (construct s) j0 q (exchange_ok s vo tr) in
+      200 + cb_class (construct s) j0 q ev
+      + 10 * match tail_model s vo wrap tr ui j0 q with
+             | TailOut (EvCb (HApp _) _ _) [] _ => 1
+             | TailOut (EvCb (HApp _) _ _) _ _ => 2
+             | TailOut _ (_ :: _) _ => 3
+             | _ => 0
+             end
   end.
 
 Definition case_mismatches := run_mismatches model obs_eqb.
